@@ -77,3 +77,8 @@ func (i *InMemCollector) VerifC01Barrier(tr *types.Trace) {
 func (i *InMemCollector) VerifC01DropQueueLen(w int) int {
 	return cache.VerifC01DropQueueLen(i.workers[w].sampleCache)
 }
+
+// VerifC01QueueLen exports how many spans are waiting in worker w's incoming and peer channels.
+func (i *InMemCollector) VerifC01QueueLen(w int) int {
+	return len(i.workers[w].incoming) + len(i.workers[w].fromPeer)
+}
